@@ -173,12 +173,18 @@ def drive_bare(name, data, sizes, qplan=None, watch_regions=True,
                 maxret = r
             if r > mem_bound and len(mem_bad) < 3:
                 mem_bad.append({'chunk': idx, 'pos': pos, 'retained': r})
+                # the bound is broken: feeding on only costs time (an
+                # unbounded buffer makes every further chunk slower)
+                break
         if qplan:
             qs = qplan.get(idx)
             if qs:
                 for q in qs:
                     res = do_query(insp, q)
                     qres.append((idx, q, res))
+        elif err is not None and rw is None:
+            # a failed inspector is not fed again: nothing can change any more
+            break
     insp.finish()
     if rw is not None and len(bad) < 3:
         bad.extend(rw.check(insp, 'finish'))
@@ -259,8 +265,25 @@ def w_formats(w):
         return core.exc_name(e)
 
 
+def ask_size(ask, req):
+    """How much the reader asks for when the source will return `req` bytes
+    (short reads: asking for more than comes back is legal for any
+    file-like source)."""
+    if ask == 'plus1':
+        return req + 1
+    if ask == 'big':
+        return max(req, 65536)
+    if ask == 'double':
+        return req * 2 + 3
+    return req
+
+
+ASK_MODES = [(None, 5), ('plus1', 1), ('big', 2), ('double', 1)]
+
+
 def drive_wrapper(data, sizes, personality='iter', order=None, allowed=None,
-                  expected=None, wq=None, watch_regions=True, has_close=True):
+                  expected=None, wq=None, watch_regions=True, has_close=True,
+                  ask=None):
     """Read all of data through an InspectWrapper. wq: set of chunk indices
     after which wrapper.format/formats are sampled.
     Returns dict(per (name -> verdict), format, formats, samples, error)."""
@@ -284,7 +307,7 @@ def drive_wrapper(data, sizes, personality='iter', order=None, allowed=None,
         while True:
             if personality == 'file':
                 req = plan[idx] if idx < len(plan) else 4096
-                chunk = w.read(req if req > 0 else 1)
+                chunk = w.read(ask_size(ask, req if req > 0 else 1))
                 if not chunk:
                     break
             else:
@@ -303,6 +326,10 @@ def drive_wrapper(data, sizes, personality='iter', order=None, allowed=None,
                         bad.append(b)
             if wq and idx in wq:
                 samples.append((idx, w_format(w), w_formats(w)))
+                qs = wq[idx] if isinstance(wq, dict) else ()
+                for n, insp in sorted(wrapper_inspectors(w).items()):
+                    for q in qs:
+                        do_query(insp, q)
             idx += 1
     except Exception as e:
         error = [idx, type(e).__name__]
